@@ -392,3 +392,32 @@ def stale_loop_variable(fn):
                                 out.append((r, v, b.iter.id, b.target.id))
                                 break
     return out
+
+
+def ascending_index_deletion(fn):
+    """[(del node, container, index list)]: positions collected in ascending order (while enumerating the container) are deleted one by
+    one in that same order -- every deletion shifts the later positions down, so from the second deletion on the wrong entries go."""
+    out = []
+    for loop in ast.walk(fn):
+        if not (isinstance(loop, ast.For) and isinstance(loop.target, ast.Name) and isinstance(loop.iter, ast.Name)):
+            continue
+        i, idx = loop.target.id, loop.iter.id
+        dels = []
+        for st in ast.walk(loop):
+            if isinstance(st, ast.Delete):
+                for t in st.targets:
+                    if isinstance(t, ast.Subscript) and isinstance(t.slice, ast.Name) and t.slice.id == i:
+                        dels.append((st, norm(t.value)))
+            elif isinstance(st, ast.Call) and isinstance(st.func, ast.Attribute) and st.func.attr == 'pop' and len(st.args) == 1 \
+                    and isinstance(st.args[0], ast.Name) and st.args[0].id == i:
+                dels.append((st, norm(st.func.value)))
+        for d, cont in dels:
+            # the index list was filled with the counter of an enumeration of the same container
+            for e in ast.walk(fn):
+                if isinstance(e, ast.For) and e is not loop and isinstance(e.iter, ast.Call) and dotted(e.iter.func) == 'enumerate' and e.iter.args \
+                        and norm(e.iter.args[0]) == cont and isinstance(e.target, ast.Tuple) and isinstance(e.target.elts[0], ast.Name):
+                    cnt = e.target.elts[0].id
+                    if any(isinstance(c, ast.Call) and isinstance(c.func, ast.Attribute) and c.func.attr == 'append' and norm(c.func.value) == idx
+                           and len(c.args) == 1 and isinstance(c.args[0], ast.Name) and c.args[0].id == cnt for c in ast.walk(e)):
+                        out.append((d, cont, idx))
+    return out
